@@ -9,11 +9,11 @@ use crate::shared::src_trait::Src;
 use crate::Outcome;
 use std::convert::TryFrom;
 
-pub fn error_position<S: Src>(s: &mut S) -> Outcome {
-    let sc = draw(s);
+pub fn error_position<S: Src>(s: &mut S, n: usize) -> Outcome {
+    let sc = draw(s, n);
     let header = "interface a.b\n";
     let mut text = String::from(header);
-    for i in 0..TLEN {
+    for i in 0..n {
         let c = sc.text[i];
         if i < sc.pos {
             text.push(if c == b'a' { ' ' } else { c as char });
@@ -50,7 +50,7 @@ pub fn error_position<S: Src>(s: &mut S) -> Outcome {
     };
     Outcome {
         reproduced: bad.is_some(),
-        role: if sc.pos == TLEN { "error-at-end-of-input".into() } else { "error-inside-input".into() },
+        role: if sc.pos == n { "error-at-end-of-input".into() } else { "error-inside-input".into() },
         scenario: format!("input {:?}, syntax error at byte {}", text, off),
         detail: bad.unwrap_or_default(),
     }
